@@ -10,7 +10,7 @@ EXTENDS Integers, Sequences, TLC, Json
 Trace == ndJsonDeserialize("trace.ndjson")
 VARIABLE l
 
-Rep(tag, cond) == cond \/ PrintT(<<"MISMATCH", l, tag>>)
+Rep(tag, cond) == IF cond THEN TRUE ELSE PrintT(<<"MISMATCH", l, tag>>)
 Range(s) == {s[i] : i \in 1..Len(s)}
 
 Check(e) ==
